@@ -152,7 +152,7 @@ func vGenChild(maxWrites int) {
 	case 1:
 		vChild.exit = 1
 	case 2:
-		vChild.exit = verif.Len("code", 2, 255)
+		vChild.exit = []int{2, 126, 127, 255}[verif.Choice("code", 4)]
 	case 3:
 		vChild.exit = -1
 	}
